@@ -421,14 +421,7 @@ func runC18Program(c *fw.Ctx, rng *rand.Rand, nops int) {
 				for _, bt := range batch.bats {
 					bt.Close()
 				}
-				k := c18key(rng)
-				for bi, bt := range batch.bats {
-					if err := bt.Set(k, []byte("late")); err == nil {
-						if err := bt.Write(); err == nil {
-							bad(bs[bi], "batch-reuse-after-close", "a closed batch accepted Set and Write")
-						}
-					}
-				}
+				// (reuse after an unwritten Close is not part of the statement and is not probed)
 				c.Obs("batches_closed_unwritten", 1)
 				batch = nil
 			}
